@@ -161,7 +161,7 @@ def inline_hoisted_bound_methods(tree):
         cands = {}
         for n in ast.walk(fn):
             if isinstance(n, ast.Assign) and len(n.targets) == 1 and isinstance(n.targets[0], ast.Name) and stores.get(n.targets[0].id) == 1 \
-                    and isinstance(n.value, ast.Attribute) and plain(n.value.value) and not isinstance(n.value.value, ast.Name):
+                    and isinstance(n.value, ast.Attribute) and plain(n.value.value):
                 cands[n.targets[0].id] = n
         if not cands:
             continue
@@ -173,8 +173,22 @@ def inline_hoisted_bound_methods(tree):
             for n in ast.walk(fn):
                 if isinstance(n, ast.Name) and n.id == name and isinstance(n.ctx, ast.Load) and id(n) not in calls:
                     ok = False          # the bound method escapes (passed on, returned, compared)
-                if isinstance(n, (ast.Attribute, ast.Name)) and isinstance(getattr(n, 'ctx', None), (ast.Store, ast.Del)) and ast.unparse(n) == recv:
+                if isinstance(n, ast.Attribute) and isinstance(getattr(n, 'ctx', None), (ast.Store, ast.Del)) and ast.unparse(n) == recv:
                     ok = False          # the receiver is rebound somewhere in the function
+            if ok and isinstance(st.value.value, ast.Name):
+                # a receiver that is itself a local: the binding and every call sit in one statement list, the calls after the
+                # binding, and nothing from the binding to the last call stores the receiver
+                ok = False
+                for parent in ast.walk(fn):
+                    for field in ('body', 'orelse', 'finalbody'):
+                        blk = getattr(parent, field, None)
+                        if isinstance(blk, list) and any(x is st for x in blk):
+                            i0 = [i for i, x in enumerate(blk) if x is st][0]
+                            uses = [i for i, x in enumerate(blk) for c in ast.walk(x) if isinstance(c, ast.Call) and isinstance(c.func, ast.Name) and c.func.id == name]
+                            total = sum(1 for c in ast.walk(fn) if isinstance(c, ast.Call) and isinstance(c.func, ast.Name) and c.func.id == name)
+                            if uses and len(uses) == total and min(uses) > i0:
+                                span = blk[i0 + 1:max(uses) + 1]
+                                ok = not any(isinstance(x, ast.Name) and x.id == recv and isinstance(x.ctx, (ast.Store, ast.Del)) for y in span for x in ast.walk(y))
                 if isinstance(n, (ast.Global, ast.Nonlocal)) and name in n.names:
                     ok = False
             if not ok:
